@@ -5,11 +5,11 @@ package humanize
 // Contracts for govc. Comment-only file. Formatting helpers are read-only.
 //@ func ByteSize
 //@   pure
-//@   trusted
 
 // unit scaling: the unit table is never empty and the rank stays inside it
 //@ func unitize
 //@   requires len(units) >= 1
+//@   pure
 //@   assert at "buf = strconv.AppendFloat(buf, nf, 'f', precision, 64)" : rank == len(units) - 1 || (nf > 0.0 - sf && nf < sf)
 //@   loop 1 invariant 0 <= rank && rank <= len(units) - 1
 
